@@ -36,6 +36,7 @@ func vspawnDaemon(f func())       {}
 func vrunThreads()                {}
 func vyield()                     {}
 func vwait()                      {}
+func vthreadEnd()                 {}
 func vthreadID() int              { return -1 }
 func vschedule() string           { return "" }
 func vuf32(tag string, d float64) float32 { return float32(d) }
@@ -250,13 +251,14 @@ var (
 	vSched      []vSchedEntry
 	vSchedPos   int
 	vSchedFree  bool // schedule exhausted or abandoned: everybody runs freely
+	vSchedHolder = -1 // the thread that passed its gate last and has not reached its next gate yet
 	vGoroutines = map[uint64]int{}
 )
 
 func vLoadSchedule() {
 	vSchedMu.Lock()
 	defer vSchedMu.Unlock()
-	vSched, vSchedPos, vSchedFree = nil, 0, true
+	vSched, vSchedPos, vSchedFree, vSchedHolder = nil, 0, true, -1
 	vGoroutines = map[uint64]int{}
 	for _, w := range vWitness {
 		if w.Kind != "schedule" {
@@ -307,6 +309,13 @@ func vgateAs(t int, op string) {
 	vSchedMu.Lock()
 	defer vSchedMu.Unlock()
 	deadline := time.Now().Add(20 * time.Second)
+	// exactly one scheduled thread runs at a time (as in the engine): a thread keeps the token from the
+	// gate it passed until it arrives at its next gate, so the operation behind a gate is complete
+	// before any other thread's next operation starts
+	if vSchedHolder == t {
+		vSchedHolder = -1
+		vSchedCond.Broadcast()
+	}
 	for !vSchedFree {
 		if vSchedPos >= len(vSched) {
 			vSchedFree = true
@@ -314,7 +323,7 @@ func vgateAs(t int, op string) {
 			break
 		}
 		e := vSched[vSchedPos]
-		if e.thread == t {
+		if e.thread == t && vSchedHolder == -1 {
 			if e.op != op && !(e.op == "start") {
 				fmt.Println("VDIVERGE schedule expects", e.op, "but thread", t, "is at", op)
 				vSchedFree = true
@@ -322,6 +331,7 @@ func vgateAs(t int, op string) {
 				break
 			}
 			vSchedPos++
+			vSchedHolder = t
 			vSchedCond.Broadcast()
 			return
 		}
@@ -346,6 +356,16 @@ func vgate(op string) {
 		return
 	}
 	vgateAs(t, op)
+}
+
+// vthreadEnd: the calling goroutine's thread has no further visible operation (gives the token back).
+func vthreadEnd() {
+	vSchedMu.Lock()
+	if t, ok := vGoroutines[vgid()]; ok && vSchedHolder == t {
+		vSchedHolder = -1
+		vSchedCond.Broadcast()
+	}
+	vSchedMu.Unlock()
 }
 
 func vspawn(f func())       { vThreads = append(vThreads, f) }
@@ -386,6 +406,7 @@ func vrunThreads() {
 			}()
 			vregisterThread(i)
 			vgateAs(i, "start")
+			defer vthreadEnd()
 			f()
 		}(i, f)
 	}
